@@ -330,9 +330,9 @@ def _maybe_cast_type(values, newval):
         pass # same kind
     elif values.dtype.kind == 'O':
         pass # or already object
-    elif values.dtype.kind == 'f' and dtype.kind == 'i':
+    elif values.dtype.kind == 'f' and dtype.kind in 'iu':
         pass # ok
-    elif values.dtype.kind == 'i' and dtype.kind == 'f':
+    elif values.dtype.kind in 'iu' and dtype.kind == 'f': # (unsigned integers are integers)
         values = np.asarray(values, dtype=float)
     elif values.dtype.kind == 'U' and dtype.kind == 'S':
         pass
